@@ -145,11 +145,7 @@ class Sum(Factory, Container):
         # no possibility of exception from here on out (for rollback)
         self.entries += float(weights.sum())
 
-        import numpy
-
-        selection = numpy.isnan(q)
-        numpy.bitwise_not(selection, selection)
-        numpy.bitwise_and(selection, weights > 0.0, selection)
+        selection = weights > 0.0
         q = q[selection]
         weights = weights[selection]
         q = q * weights
